@@ -399,9 +399,29 @@ def nat_fault_injection(h):
             before = [h.rng.choice(pool)() for _ in range(h.rng.randint(0, 2))]
             after = [h.rng.choice(pool)() for _ in range(h.rng.randint(0, 2))]
             use_results = h.rng.random() < 0.5
-            flow = Flow([dict(r) for r in data], *before, bad, *after)
+            # the failing step is either a package-level generator step or a plain per-row function (which runs inside the
+            # default DataStreamProcessor.process_resource); the latter also with StopIteration, which must not be taken
+            # for the end of the stream
+            style = h.rng.choice(['package-step', 'row-function'])
+            if style == 'row-function':
+                if h.rng.random() < 0.3:
+                    marker = StopIteration('injected')
+
+                def mk_bad_row(marker, k):
+                    def bad_row(row):
+                        if row['a'] == k:
+                            raise marker
+                    return bad_row
+                failing = mk_bad_row(marker, k)
+            else:
+                failing = bad
+            flow = Flow([dict(r) for r in data], *before, failing, *after)
             got = h.run(lambda: flow.results() if use_results else flow.process())
-            ok = got[0] == 'exc' and got[1] == 'ProcessorError' and got[2].cause is marker
+            cause = getattr(got[2], 'cause', None) if got[0] == 'exc' else None
+            ok = got[0] == 'exc' and got[1] == 'ProcessorError' and (cause is marker or getattr(cause, '__cause__', None) is marker)
+            cls = type(marker)
+            if style == 'row-function':
+                phase = 'row-function'
             h.check(ok, 'dataflows/base/datastream_processor.py::DataStreamProcessor.safe_process',
                     (cls.__name__, phase, k, [type(s).__name__ if not callable(s) or hasattr(s, '__class__') else s for s in before],
                      use_results), 'ProcessorError(cause=injected)', (got[0], got[1], repr(getattr(got[2], 'cause', None)) if got[0] == 'exc' else None))
